@@ -8,24 +8,24 @@ Proof. reflexivity. Qed.
 
 (* ================================================================== every USE refines the default *)
 (* a use that succeeds under any undefined type gives the same result under the default type *)
-Lemma step_item_ref_val uk obj kv v : step_item uk obj kv = SVal v -> step_item UDefault obj kv = SVal v.
+Lemma step_item_ref_val g uk obj kv v : step_item g uk obj kv = SVal v -> step_item g UDefault obj kv = SVal v.
 Proof.
   unfold step_item. destruct (is_undef kv && probe_raises uk); [discriminate|].
   simpl. rewrite andb_false_r. destruct obj; auto. destruct (strict_kind uk); [discriminate|auto].
 Qed.
 
-Lemma step_item_ref_missing uk obj kv : step_item uk obj kv = SMissing -> step_item UDefault obj kv = SMissing.
+Lemma step_item_ref_missing g uk obj kv : step_item g uk obj kv = SMissing -> step_item g UDefault obj kv = SMissing.
 Proof.
   unfold step_item. destruct (is_undef kv && probe_raises uk); [discriminate|].
   simpl. rewrite andb_false_r. destruct obj; auto. destruct (strict_kind uk); discriminate.
 Qed.
 
-Lemma walk_ref uk ks : forall obj v, walk uk obj ks = Ok v -> walk UDefault obj ks = Ok v.
+Lemma walk_ref g uk ks : forall obj v, walk g uk obj ks = Ok v -> walk g UDefault obj ks = Ok v.
 Proof.
   induction ks as [|k ks IH]; intros obj v H; simpl in *; [exact H|].
-  destruct (step_item uk obj k) as [v'| |] eqn:E.
-  - rewrite (step_item_ref_val _ _ _ _ E). apply IH. exact H.
-  - rewrite (step_item_ref_missing _ _ _ E). exact H.
+  destruct (step_item g uk obj k) as [v'| |] eqn:E.
+  - rewrite (step_item_ref_val _ _ _ _ _ E). apply IH. exact H.
+  - rewrite (step_item_ref_missing _ _ _ _ E). exact H.
   - discriminate.
 Qed.
 
@@ -50,25 +50,63 @@ Qed.
 Lemma eval_expr_ref uk c e v : eval_expr uk c e = Ok v -> eval_expr UDefault c e = Ok v.
 Proof. destruct e; simpl; [auto|apply eval_path_ref]. Qed.
 
-Lemma apply_filter_ref uk f v r : apply_filter uk f v = Ok r -> apply_filter UDefault f v = Ok r.
+(* the condition on an abstract filter table under which the refinement survives: whatever a filter returns under
+   some undefined type it also returns under the default type *)
+Definition filters_refine (ft : filter_table) : Prop :=
+  forall id uk v args r, ft id uk v args = Ok r -> ft id UDefault v args = Ok r.
+
+Lemma eval_args_ref uk c es : forall vs, eval_args uk c es = Ok vs -> eval_args UDefault c es = Ok vs.
 Proof.
-  destruct f; simpl.
+  induction es as [|e es IH]; intros vs H; simpl in *; [exact H|].
+  destruct (eval_expr uk c e) as [v| |] eqn:E; try discriminate. rewrite (eval_expr_ref _ _ _ _ E). simpl in *.
+  destruct (eval_args uk c es) as [vs'| |]; try discriminate. rewrite (IH vs' eq_refl). exact H.
+Qed.
+
+(* the `has` filter with its is_undefined guard is such a filter: an undefined left value raises under every strict
+   type and is empty otherwise; an undefined VALUE argument raises or counts as nil; nothing else looks at the type *)
+Lemma has_filter_ref uk v attr w r : has_filter uk v attr w = Ok r -> has_filter UDefault v attr w = Ok r.
+Proof.
+  unfold has_filter.
+  assert (Hi : forall l, has_input uk v = Ok l -> has_input UDefault v = Ok l).
+  { destruct v; simpl; auto. destruct (strict_kind uk); [discriminate|auto]. }
+  destruct (has_input uk v) as [l| |] eqn:E; try discriminate. rewrite (Hi l eq_refl). simpl.
+  destruct w; auto. destruct (probe_raises uk); [discriminate|auto].
+Qed.
+
+Lemma apply_filter_ref ft uk c f v r :
+  filters_refine ft -> apply_filter ft uk c f v = Ok r -> apply_filter ft UDefault c f v = Ok r.
+Proof.
+  intro Hft. destruct f; simpl.
   - destruct v; auto. destruct (strict_kind uk); [discriminate|auto].
   - destruct v; auto. destruct (strict_kind uk); [discriminate|auto].
   - destruct v; auto. destruct uk; auto; discriminate.
+  - destruct value as [e|]; simpl.
+    + destruct (eval_expr uk c e) as [w| |] eqn:E; try discriminate. rewrite (eval_expr_ref _ _ _ _ E). simpl.
+      apply has_filter_ref.
+    + apply has_filter_ref.
+  - destruct (eval_args uk c args) as [ws| |] eqn:E; try discriminate. rewrite (eval_args_ref _ _ _ _ E). simpl.
+    apply Hft.
 Qed.
 
-Lemma apply_filters_ref uk fs : forall v r, apply_filters uk fs v = Ok r -> apply_filters UDefault fs v = Ok r.
+Lemma apply_filters_ref ft uk c fs : filters_refine ft ->
+  forall v r, apply_filters ft uk c fs v = Ok r -> apply_filters ft UDefault c fs v = Ok r.
 Proof.
-  induction fs as [|f fs IH]; intros v r H; simpl in *; [exact H|].
-  destruct (apply_filter uk f v) as [v'| |] eqn:E; try discriminate.
-  rewrite (apply_filter_ref _ _ _ _ E). simpl in *. apply IH. exact H.
+  intro Hft. induction fs as [|f fs IH]; intros v r H; simpl in *; [exact H|].
+  destruct (apply_filter ft uk c f v) as [v'| |] eqn:E; try discriminate.
+  rewrite (apply_filter_ref _ _ _ _ _ _ Hft E). simpl in *. apply IH. exact H.
 Qed.
 
-Lemma eval_fexpr_ref uk c e v : eval_fexpr uk c e = Ok v -> eval_fexpr UDefault c e = Ok v.
+Lemma eval_fexpr_ref ft uk c e v : filters_refine ft -> eval_fexpr ft uk c e = Ok v -> eval_fexpr ft UDefault c e = Ok v.
 Proof.
-  destruct e as [e0 fs]. simpl. destruct (eval_expr uk c e0) as [v0| |] eqn:E; try discriminate.
-  rewrite (eval_expr_ref _ _ _ _ E). simpl. apply apply_filters_ref.
+  intro Hft. destruct e as [e0 fs]. simpl. destruct (eval_expr uk c e0) as [v0| |] eqn:E; try discriminate.
+  rewrite (eval_expr_ref _ _ _ _ E). simpl. apply apply_filters_ref. exact Hft.
+Qed.
+
+(* witness for the seeded variant of `has` without the guard: FalsyStrictUndefined renders, and differently *)
+Lemma has_unguarded_not_refining :
+  exists v attr w r, has_filter_unguarded UFalsy v attr w = Ok r /\ has_filter_unguarded UDefault v attr w <> Ok r.
+Proof.
+  exists (VList [VDict [(slit "a", VBool false)]]), (slit "a"), VUndef, (VBool true). split; vm_compute; [reflexivity|discriminate].
 Qed.
 
 Lemma to_output_ref uk v t : to_output uk v = Ok t -> to_output UDefault v = Ok t.
@@ -104,7 +142,7 @@ Proof.
   apply IH. exact H.
 Qed.
 
-Lemma items_of_ref uk v l : items_of uk v = Ok l -> items_of UDefault v = Ok l.
+Lemma items_of_ref g uk v l : items_of g uk v = Ok l -> items_of g UDefault v = Ok l.
 Proof. destruct v; simpl; auto. destruct (strict_kind uk); [discriminate|auto]. Qed.
 
 Lemma eval_iter_ref uk c it l : eval_iter uk c it = Ok l -> eval_iter UDefault c it = Ok l.
@@ -216,19 +254,19 @@ Lemma back_inv (x : outcome) c c' o s :
 Proof. destruct x; [|discriminate]. intro H; inversion H; subst. eauto. Qed.
 
 (* one node: if the nested interpreter is refined, so is the node *)
-Lemma exec_step_refines uk ld r1 r2 :
-  refines r1 r2 -> refines (exec_step (Env MStrict uk ld) r1) (exec_step (Env MStrict UDefault ld) r2).
+Lemma exec_step_refines uk ld ft r1 r2 : filters_refine ft ->
+  refines r1 r2 -> refines (exec_step (Env MStrict uk ld ft) r1) (exec_step (Env MStrict UDefault ld ft) r2).
 Proof.
-  intros Hr n c c' o s H Hs.
-  destruct n; cbn [exec_step e_uk e_mode e_loader] in *.
+  intros Hft Hr n c c' o s H Hs.
+  destruct n; cbn [exec_step e_uk e_mode e_loader e_filters] in *.
   - exact H.
   - (* output *)
     destruct (lift_ok_inv _ _ _ _ _ _ H Hs) as (v & Ev & Hv). cbv beta in Hv.
     destruct (lift_ok_inv _ _ _ _ _ _ Hv Hs) as (t & Et & Ht).
-    rewrite (eval_fexpr_ref _ _ _ _ Ev). cbn [lift]. rewrite (to_output_ref _ _ _ Et). exact Ht.
+    rewrite (eval_fexpr_ref _ _ _ _ _ Hft Ev). cbn [lift]. rewrite (to_output_ref _ _ _ Et). exact Ht.
   - (* assign *)
     destruct (lift_ok_inv _ _ _ _ _ _ H Hs) as (v & Ev & Hv).
-    rewrite (eval_fexpr_ref _ _ _ _ Ev). exact Hv.
+    rewrite (eval_fexpr_ref _ _ _ _ _ Hft Ev). exact Hv.
   - (* capture *)
     destruct (seq_nodes r1 body c) as [c1 o1 s1|] eqn:E; [|discriminate].
     assert (Hs1 : no_raise s1) by (destruct s1; try exact I; inversion H; subst; exact Hs).
@@ -303,25 +341,37 @@ Proof.
       rewrite (to_output_ref _ _ _ Et). exact Ht.
   - exact H.
   - exact H.
+  - (* block *)
+    destruct (is_disabled TBlock c); [exact H|].
+    destruct (overrides c) as [ovs|].
+    + apply back_inv in H. destruct H as (c1 & Hl & ->). rewrite (seq_nodes_ref r1 r2 _ Hr _ _ _ _ Hl Hs). reflexivity.
+    + apply after_inv in H. destruct H as (c1 & Hb & ->). rewrite (seq_nodes_ref r1 r2 _ Hr _ _ _ _ Hb Hs). reflexivity.
+  - (* extends *)
+    match type of H with context [alookup ?b ld] => destruct (alookup b ld) as [body|]; [|exact H] end.
+    apply after_inv in H. destruct H as (c1 & Hb & ->).
+    rewrite (run_template_ref false false r1 r2 body Hr _ _ _ _ Hb Hs). reflexivity.
 Qed.
 
-Theorem exec_refines fuel uk ld :
-  refines (exec fuel (Env MStrict uk ld)) (exec fuel (Env MStrict UDefault ld)).
+Theorem exec_refines fuel uk ld ft : filters_refine ft ->
+  refines (exec fuel (Env MStrict uk ld ft)) (exec fuel (Env MStrict UDefault ld ft)).
 Proof.
-  induction fuel as [|f IH].
+  intro Hft. induction fuel as [|f IH].
   - intros n c c' o s H. discriminate.
   - intros n c c' o s H Hs. rewrite exec_S' in *. eapply exec_step_refines; eauto.
 Qed.
+
+Lemma no_filters_refine : filters_refine no_filters.
+Proof. intros id uk v args r H. exact H. Qed.
 
 (* C16: if rendering succeeds with a strict undefined type, the default undefined type gives the same output *)
 Theorem run_case_refines k u out :
   k_mode k = MStrict -> run_case (with_uk k u) = Ok out -> run_case (with_uk k UDefault) = Ok out.
 Proof.
-  intros Hm H. unfold run_case, run_top, case_env, init_ctx, top_globals in *. destruct k as [md uk0 ld a m t e body].
-  cbn [with_uk k_mode k_uk k_loader k_args k_matter k_tglobals k_eglobals k_body] in *. subst md.
+  intros Hm H. unfold run_case, run_top, case_env, init_ctx, top_globals in *. destruct k as [md uk0 fg ld a m t e body].
+  cbn [with_uk k_mode k_uk k_flags k_loader k_args k_matter k_tglobals k_eglobals k_body] in *. subst md.
   match type of H with finish ?X = _ => destruct X as [c o s|] eqn:E; [|discriminate] end.
   destruct s; try discriminate. simpl in H.
-  rewrite (run_template_ref false false _ _ body (exec_refines run_fuel u ld) _ _ _ _ E I). simpl. exact H.
+  rewrite (run_template_ref false false _ _ body (exec_refines run_fuel u ld no_filters no_filters_refine) _ _ _ _ E I). simpl. exact H.
 Qed.
 
 (* ================================================================== StrictUndefined raises on every use *)
@@ -329,31 +379,67 @@ Qed.
 Lemma missing_name_is_undefined uk c x : resolve c x = None -> eval_expr uk c (EPath (Path x [])) = Ok VUndef.
 Proof. intro H. simpl. unfold eval_path. simpl. rewrite H. reflexivity. Qed.
 
-Lemma apply_filters_strict_undef fs : fs <> [] -> apply_filters UStrict fs VUndef = Err EUndefined.
-Proof. destruct fs as [|f fs]; [congruence|]. intros _. destruct f; reflexivity. Qed.
+(* an evaluation either succeeds or fails with UndefinedError: nothing else can go wrong in a path *)
+Lemma walk_ok_or_undef g uk ks : forall obj, (exists v, walk g uk obj ks = Ok v) \/ walk g uk obj ks = Err EUndefined.
+Proof.
+  induction ks as [|k ks IH]; intro obj; simpl; [left; eauto|].
+  destruct (step_item g uk obj k); [apply IH|left; eauto|right; reflexivity].
+Qed.
+
+Lemma eval_simple_ok_or_undef uk c r ks : (exists v, eval_simple uk c r ks = Ok v) \/ eval_simple uk c r ks = Err EUndefined.
+Proof. unfold eval_simple. destruct (resolve c r); [apply walk_ok_or_undef|left; eauto]. Qed.
+
+Lemma eval_segs_ok_or_undef uk c ss : (exists vs, eval_segs uk c ss = Ok vs) \/ eval_segs uk c ss = Err EUndefined.
+Proof.
+  induction ss as [|sg ss IH]; simpl; [left; eauto|].
+  destruct sg as [st k|r ks]; simpl.
+  - destruct IH as [[vs ->]| ->]; simpl; [left; eauto|right; reflexivity].
+  - destruct (eval_simple_ok_or_undef uk c r ks) as [[v ->]| ->]; simpl; [|right; reflexivity].
+    destruct IH as [[vs ->]| ->]; simpl; [left; eauto|right; reflexivity].
+Qed.
+
+Lemma eval_expr_ok_or_undef uk c e : (exists v, eval_expr uk c e = Ok v) \/ eval_expr uk c e = Err EUndefined.
+Proof.
+  destruct e as [l|p]; simpl; [left; eauto|]. unfold eval_path.
+  destruct (eval_segs_ok_or_undef uk c (p_segs p)) as [[vs ->]| ->]; simpl; [|right; reflexivity].
+  destruct (resolve c (p_root p)); [apply walk_ok_or_undef|left; eauto].
+Qed.
+
+(* the modelled filters (everything but an abstract one) *)
+Definition concrete (f : filt) : Prop := match f with FGen _ _ => False | _ => True end.
+
+Lemma apply_filter_strict_undef ft c f : concrete f -> apply_filter ft UStrict c f VUndef = Err EUndefined.
+Proof.
+  destruct f; simpl; intro H; try reflexivity; try contradiction.
+  destruct value as [e|]; simpl; [|reflexivity].
+  destruct (eval_expr_ok_or_undef UStrict c e) as [[w ->]| ->]; reflexivity.
+Qed.
+
+Lemma apply_filters_strict_undef ft c f fs : concrete f -> apply_filters ft UStrict c (f :: fs) VUndef = Err EUndefined.
+Proof. intro H. simpl. rewrite (apply_filter_strict_undef ft c f H). reflexivity. Qed.
 
 (* outputting (with or without filters) *)
-Theorem strict_output_raises f md ld c e fs :
-  eval_expr UStrict c e = Ok VUndef ->
-  exec (S f) (Env md UStrict ld) (NOut (FPlain e fs)) c = Done c [] (Raise EUndefined).
+Theorem strict_output_raises f md ld ft c e fs :
+  eval_expr UStrict c e = Ok VUndef -> (forall flt, hd_error fs = Some flt -> concrete flt) ->
+  exec (S f) (Env md UStrict ld ft) (NOut (FPlain e fs)) c = Done c [] (Raise EUndefined).
 Proof.
-  intro H. rewrite exec_S'. cbn [exec_step e_uk eval_fexpr]. rewrite H. cbn [bind].
-  destruct fs as [|f0 fs]; [reflexivity|]. rewrite apply_filters_strict_undef by discriminate. reflexivity.
+  intros H Hc. rewrite exec_S'. cbn [exec_step e_uk e_filters eval_fexpr]. rewrite H. cbn [bind].
+  destruct fs as [|f0 fs]; [reflexivity|]. rewrite apply_filters_strict_undef by (apply Hc; reflexivity). reflexivity.
 Qed.
 
 (* filtering, even when the result is only assigned *)
-Theorem strict_filter_raises f md ld c x e flt fs :
-  eval_expr UStrict c e = Ok VUndef ->
-  exec (S f) (Env md UStrict ld) (NAssign x (FPlain e (flt :: fs))) c = Done c [] (Raise EUndefined).
+Theorem strict_filter_raises f md ld ft c x e flt fs :
+  eval_expr UStrict c e = Ok VUndef -> concrete flt ->
+  exec (S f) (Env md UStrict ld ft) (NAssign x (FPlain e (flt :: fs))) c = Done c [] (Raise EUndefined).
 Proof.
-  intro H. rewrite exec_S'. cbn [exec_step e_uk eval_fexpr]. rewrite H. cbn [bind].
-  rewrite apply_filters_strict_undef by discriminate. reflexivity.
+  intros H Hc. rewrite exec_S'. cbn [exec_step e_uk e_filters eval_fexpr]. rewrite H. cbn [bind].
+  rewrite apply_filters_strict_undef by exact Hc. reflexivity.
 Qed.
 
 (* iterating *)
-Theorem strict_iterate_raises f md ld c x p body els :
+Theorem strict_iterate_raises f md ld ft c x p body els :
   eval_path UStrict c p = Ok VUndef ->
-  exec (S f) (Env md UStrict ld) (NFor x (IPath p) body els) c = Done c [] (Raise EUndefined).
+  exec (S f) (Env md UStrict ld ft) (NFor x (IPath p) body els) c = Done c [] (Raise EUndefined).
 Proof. intro H. rewrite exec_S'. cbn [exec_step e_uk eval_iter]. rewrite H. reflexivity. Qed.
 
 (* comparing and testing *)
@@ -363,9 +449,9 @@ Definition cond_head (cd : cond) : atom := match cd with CAtom a | CAnd a _ | CO
 Lemma strict_atom_raises c a : eval_expr UStrict c (atom_expr a) = Ok VUndef -> eval_atom UStrict c a = Err EUndefined.
 Proof. destruct a; simpl; intro H; rewrite H; reflexivity. Qed.
 
-Theorem strict_compare_raises f md ld c cd th el :
+Theorem strict_compare_raises f md ld ft c cd th el :
   eval_expr UStrict c (atom_expr (cond_head cd)) = Ok VUndef ->
-  exec (S f) (Env md UStrict ld) (NIf cd th el) c = Done c [] (Raise EUndefined).
+  exec (S f) (Env md UStrict ld ft) (NIf cd th el) c = Done c [] (Raise EUndefined).
 Proof.
   intro H. rewrite exec_S'. cbn [exec_step e_uk].
   assert (E : eval_cond UStrict c cd = Err EUndefined)
@@ -374,14 +460,20 @@ Proof.
 Qed.
 
 (* which use each undefined type permits for an undefined value *)
-Lemma undefined_use_table uk :
+Lemma undefined_use_table uk g ft c :
   to_output uk VUndef = (if strict_kind uk then Err EUndefined else Ok []) /\
-  items_of uk VUndef = (if strict_kind uk then Err EUndefined else Ok []) /\
-  apply_filter uk FUpcase VUndef = (if strict_kind uk then Err EUndefined else Ok (VStr [])) /\
-  apply_filter uk FSize VUndef = (if strict_kind uk then Err EUndefined else Ok (VInt 0)) /\
+  items_of g uk VUndef = (if strict_kind uk then Err EUndefined else Ok []) /\
+  apply_filter ft uk c FUpcase VUndef = (if strict_kind uk then Err EUndefined else Ok (VStr [])) /\
+  apply_filter ft uk c FSize VUndef = (if strict_kind uk then Err EUndefined else Ok (VInt 0)) /\
   truthy uk VUndef = (if probe_raises uk then Err EUndefined else Ok false) /\
-  (forall l, apply_filter uk (FDefault l) VUndef = match uk with UStrict => Err EUndefined | _ => Ok (val_of_scalar l) end).
-Proof. repeat split. Qed.
+  (forall l, apply_filter ft uk c (FDefault l) VUndef = match uk with UStrict => Err EUndefined | _ => Ok (val_of_scalar l) end) /\
+  (forall attr, apply_filter ft uk c (FHas attr None) VUndef = (if strict_kind uk then Err EUndefined else Ok (VBool false))) /\
+  (forall l attr, has_filter uk (VList l) attr VUndef =
+                  (if probe_raises uk then Err EUndefined else has_filter uk (VList l) attr VNil)).
+Proof.
+  repeat split; intros; simpl; try (destruct (strict_kind uk); reflexivity);
+    unfold has_filter; simpl; try (destruct (strict_kind uk); reflexivity); destruct (probe_raises uk); reflexivity.
+Qed.
 
 (* ================================================================== the default type never raises UndefinedError *)
 Definition sg (s : signal) : Prop := s <> Raise EUndefined.
@@ -449,18 +541,51 @@ Proof. intros [a ->]. discriminate. Qed.
 Lemma eval_expr_default_total c e : exists v, eval_expr UDefault c e = Ok v.
 Proof. destruct e; simpl; [eauto|apply eval_path_default_total]. Qed.
 
-Lemma apply_filters_default_total fs : forall v, exists r, apply_filters UDefault fs v = Ok r.
+Lemma eval_args_default_total c es : exists vs, eval_args UDefault c es = Ok vs.
 Proof.
-  induction fs as [|f fs IH]; intro v; simpl; [eauto|].
-  assert (T : exists r, apply_filter UDefault f v = Ok r).
-  { destruct f; simpl; destruct v; eauto; try (destruct b; eauto); try (destruct s; eauto); try (destruct l0; eauto); destruct l; eauto;
-      try (destruct d; eauto). }
-  destruct T as [r ->]. simpl. apply IH.
+  induction es as [|e es [vs IH]]; simpl; [eauto|].
+  destruct (eval_expr_default_total c e) as [v ->]. simpl. rewrite IH. simpl. eauto.
 Qed.
 
-Lemma eval_fexpr_default_total c e : exists v, eval_fexpr UDefault c e = Ok v.
+Lemma has_any_no_undef test attr items : has_any test attr items <> Err EUndefined.
 Proof.
-  destruct e as [e0 fs]. simpl. destruct (eval_expr_default_total c e0) as [v ->]. simpl. apply apply_filters_default_total.
+  induction items as [|itm items IH]; simpl; [discriminate|].
+  destruct (getattr_item itm attr); try discriminate. destruct (test x); [discriminate|exact IH].
+Qed.
+
+Lemma has_filter_default_no_undef v attr w : has_filter UDefault v attr w <> Err EUndefined.
+Proof.
+  unfold has_filter.
+  assert (Hi : exists l, has_input UDefault v = Ok l) by (destruct v; simpl; eauto).
+  destruct Hi as [l ->]. simpl. destruct w; apply has_any_no_undef.
+Qed.
+
+(* the second condition on an abstract filter table: under the default type no filter raises UndefinedError *)
+Definition filters_default_ok (ft : filter_table) : Prop := forall id v args, ft id UDefault v args <> Err EUndefined.
+
+Lemma apply_filter_default_no_undef ft c f v : filters_default_ok ft -> apply_filter ft UDefault c f v <> Err EUndefined.
+Proof.
+  intro Hft. destruct f; simpl.
+  - destruct v; discriminate.
+  - destruct v; discriminate.
+  - destruct v; try discriminate; try (destruct b; discriminate); try (destruct s; discriminate); try (destruct l0; discriminate);
+      try (destruct d; discriminate); destruct l; discriminate.
+  - destruct value as [e|]; simpl; [|apply has_filter_default_no_undef].
+    destruct (eval_expr_default_total c e) as [w ->]. simpl. apply has_filter_default_no_undef.
+  - destruct (eval_args_default_total c args) as [ws ->]. simpl. apply Hft.
+Qed.
+
+Lemma apply_filters_default_no_undef ft c fs : filters_default_ok ft -> forall v, apply_filters ft UDefault c fs v <> Err EUndefined.
+Proof.
+  intro Hft. induction fs as [|f fs IH]; intro v; simpl; [discriminate|].
+  pose proof (apply_filter_default_no_undef ft c f v Hft) as H.
+  destruct (apply_filter ft UDefault c f v) as [v'| |]; simpl; [apply IH|exact H|discriminate].
+Qed.
+
+Lemma eval_fexpr_default_no_undef ft c e : filters_default_ok ft -> eval_fexpr ft UDefault c e <> Err EUndefined.
+Proof.
+  intro Hft. destruct e as [e0 fs]. simpl. destruct (eval_expr_default_total c e0) as [v ->]. simpl.
+  apply apply_filters_default_no_undef. exact Hft.
 Qed.
 
 Lemma to_output_default_total v : exists t, to_output UDefault v = Ok t.
@@ -494,7 +619,8 @@ Qed.
 Lemma eval_iter_default_total c it : exists l, eval_iter UDefault c it = Ok l.
 Proof.
   destruct it as [p|a b]; simpl; [|eauto].
-  destruct (eval_path_default_total c p) as [v ->]. simpl. destruct v; simpl; eauto. destruct s; eauto.
+  destruct (eval_path_default_total c p) as [v ->]. simpl. destruct v; simpl; eauto.
+  destruct (fl_sequences (cfg c)); eauto. destruct s; eauto.
 Qed.
 
 Lemma arraylike_default_no_raise v : arraylike UDefault v <> ARaise.
@@ -517,17 +643,17 @@ Proof.
   simpl. apply bind_params_default_total.
 Qed.
 
-Lemma exec_step_sig md ld run : sig_ok run -> sig_ok (exec_step (Env md UDefault ld) run).
+Lemma exec_step_sig md ld ft run : filters_default_ok ft -> sig_ok run -> sig_ok (exec_step (Env md UDefault ld ft) run).
 Proof.
-  intros Hr n c c' o s H.
+  intros Hft Hr n c c' o s H.
   assert (Hseq : forall l c0 c1 o1 s1, seq_nodes run l c0 = Done c1 o1 s1 -> sg s1) by (intros; eapply seq_nodes_sig; eauto).
   assert (Htm : forall p pr body c0 c1 o1 s1, run_template md p pr run body c0 = Done c1 o1 s1 -> sg s1)
     by (intros; eapply run_template_sig; eauto).
-  destruct n; cbn [exec_step e_uk e_mode e_loader] in H.
+  destruct n; cbn [exec_step e_uk e_mode e_loader e_filters] in H.
   - inversion H; subst; apply sg_normal.
-  - eapply lift_sig; [apply total_no_undef, eval_fexpr_default_total| |exact H]. intros v Hv. cbv beta in Hv.
+  - eapply lift_sig; [apply eval_fexpr_default_no_undef; exact Hft| |exact H]. intros v Hv. cbv beta in Hv.
     eapply lift_sig; [apply total_no_undef, to_output_default_total| |exact Hv]. intros t Ht. inversion Ht; subst; apply sg_normal.
-  - eapply lift_sig; [apply total_no_undef, eval_fexpr_default_total| |exact H]. intros v Hv. inversion Hv; subst; apply sg_normal.
+  - eapply lift_sig; [apply eval_fexpr_default_no_undef; exact Hft| |exact H]. intros v Hv. inversion Hv; subst; apply sg_normal.
   - destruct (seq_nodes run body c) as [c1 o1 s1|] eqn:E; [|discriminate]. apply Hseq in E.
     destruct s1; inversion H; subst; auto using sg_normal.
   - eapply lift_sig; [apply eval_cond_default_no_undef| |exact H]. intros b Hb. cbv beta in Hb. eapply Hseq; eauto.
@@ -566,11 +692,20 @@ Proof.
     + eapply lift_sig; [apply total_no_undef, to_output_default_total| |exact H]. intros t Ht. inversion Ht; subst; apply sg_normal.
   - inversion H; subst; apply sg_normal.
   - inversion H; subst; apply sg_normal.
+  - destruct (is_disabled TBlock c); [inversion H; subst; discriminate|].
+    destruct (overrides c) as [ovs|].
+    + apply back_inv in H. destruct H as (c1 & Hl & _). eapply Hseq; eauto.
+    + apply after_inv in H. destruct H as (c1 & Hb & _). eapply Hseq; eauto.
+  - match type of H with context [alookup ?b ld] => destruct (alookup b ld) as [body|]; [|inversion H; subst; discriminate] end.
+    apply after_inv in H. destruct H as (c1 & Hb & _). eapply Htm; eauto.
 Qed.
 
-Theorem exec_default_never_undefined fuel md ld : sig_ok (exec fuel (Env md UDefault ld)).
+Lemma no_filters_default_ok : filters_default_ok no_filters.
+Proof. intros id v args. discriminate. Qed.
+
+Theorem exec_default_never_undefined fuel md ld ft : filters_default_ok ft -> sig_ok (exec fuel (Env md UDefault ld ft)).
 Proof.
-  induction fuel as [|f IH].
+  intro Hft. induction fuel as [|f IH].
   - intros n c c' o s H. discriminate.
   - intros n c c' o s H. rewrite exec_S' in H. eapply exec_step_sig; eauto.
 Qed.
@@ -579,16 +714,75 @@ Qed.
 Theorem run_case_default_never_undefined k : run_case (with_uk k UDefault) <> Err EUndefined.
 Proof.
   unfold run_case, run_top, finish. destruct (run_template _ _ _ _ _ _) as [c o s|] eqn:E; [|discriminate].
-  apply run_template_sig in E; [|apply exec_default_never_undefined].
+  apply run_template_sig in E; [|apply exec_default_never_undefined, no_filters_default_ok].
   destruct s; try discriminate. intro H. inversion H; subst. apply E. reflexivity.
 Qed.
 
 (* the hypothesis "strict tolerance mode" of the refinement is needed: in lax mode the UndefinedError is swallowed,
    the render "succeeds" and prints less than the default type does *)
 Definition lax_witness : case :=
-  Case MLax UStrict [] [] [] [] []
+  Case MLax UStrict default_flags [] [] [] [] []
     [NIf (CAtom (CTruthy (EPath (Path (slit "nosuch") [])))) [NText (slit "t")] [NText (slit "f")]; NText (slit ".")].
 
 Lemma refinement_needs_strict_mode :
   run_case lax_witness = Ok (slit ".") /\ run_case (with_uk lax_witness UDefault) = Ok (slit "f.").
 Proof. split; vm_compute; reflexivity. Qed.
+
+(* ================================================================== abstract filters: the shape that keeps the refinement *)
+(* A GUARDED filter looks at the undefined type only to decide whether an undefined left value (rin) or an undefined
+   argument (rarg) raises; otherwise the left value counts as `empty` and an undefined argument as nil, and the result is
+   a function `core` of the substituted values.  This is the shape `if is_undefined(x): ...` gives a filter. *)
+Definition undef_to_nil (v : val) : val := match v with VUndef => VNil | _ => v end.
+
+Definition guarded (rin rarg : ukind -> bool) (empty : val) (core : val -> list val -> res val)
+  : ukind -> val -> list val -> res val :=
+  fun uk v args =>
+    if is_undef v && rin uk then Err EUndefined
+    else if existsb is_undef args && rarg uk then Err EUndefined
+    else core (if is_undef v then empty else v) (map undef_to_nil args).
+
+(* every guarded filter whose guards are off for the default type satisfies the refinement condition ... *)
+Theorem guarded_refines rin rarg empty core :
+  rin UDefault = false -> rarg UDefault = false ->
+  forall uk v args r, guarded rin rarg empty core uk v args = Ok r -> guarded rin rarg empty core UDefault v args = Ok r.
+Proof.
+  intros Hi Ha uk v args r. unfold guarded. rewrite Hi, Ha, !andb_false_r.
+  destruct (is_undef v && rin uk); [discriminate|]. destruct (existsb is_undef args && rarg uk); [discriminate|auto].
+Qed.
+
+(* ... and, if its core never fails with UndefinedError, the "default never raises" condition *)
+Theorem guarded_default_ok rin rarg empty core :
+  rin UDefault = false -> rarg UDefault = false -> (forall v args, core v args <> Err EUndefined) ->
+  forall v args, guarded rin rarg empty core UDefault v args <> Err EUndefined.
+Proof. intros Hi Ha Hc v args. unfold guarded. rewrite Hi, Ha, !andb_false_r. apply Hc. Qed.
+
+(* a table of guarded filters therefore keeps both C16 theorems *)
+Corollary guarded_table_ok (tbl : N -> (ukind -> bool) * (ukind -> bool) * val * (val -> list val -> res val)) :
+  (forall id, fst (fst (fst (tbl id))) UDefault = false /\ snd (fst (fst (tbl id))) UDefault = false) ->
+  filters_refine (fun id => guarded (fst (fst (fst (tbl id)))) (snd (fst (fst (tbl id)))) (snd (fst (tbl id))) (snd (tbl id))).
+Proof.
+  intros H id uk v args r. destruct (H id) as [Hi Ha]. apply guarded_refines; assumption.
+Qed.
+
+(* the built-in `has` IS a guarded filter: its left value is guarded by iteration (every strict type raises, empty
+   otherwise), its value argument by is_undefined (raises where __class__ is not readable, nil otherwise) *)
+Theorem has_is_guarded uk v attr w :
+  has_filter uk v attr w =
+  guarded strict_kind probe_raises (VList []) (fun v' ws => has_filter UDefault v' attr (hd VNil ws)) uk v [w].
+Proof.
+  unfold guarded, has_filter. destruct v; simpl;
+    try (destruct w; simpl; try reflexivity; rewrite ?orb_false_r; destruct (probe_raises uk); reflexivity).
+  destruct (strict_kind uk); simpl; [reflexivity|].
+  destruct w; simpl; try reflexivity; destruct (probe_raises uk); reflexivity.
+Qed.
+
+(* the unguarded variant is not: no guarded filter agrees with it (it violates the refinement condition) *)
+Theorem has_unguarded_is_not_guarded attr :
+  attr = slit "a" ->
+  ~ exists rin rarg empty core, rin UDefault = false /\ rarg UDefault = false /\
+      forall uk v w, has_filter_unguarded uk v attr w = guarded rin rarg empty core uk v [w].
+Proof.
+  intros -> (rin & rarg & empty & core & Hi & Ha & H).
+  pose proof (guarded_refines rin rarg empty core Hi Ha UFalsy (VList [VDict [(slit "a", VBool false)]]) [VUndef] (VBool true)) as R.
+  rewrite <- !H in R. specialize (R eq_refl). vm_compute in R. discriminate.
+Qed.
